@@ -41,8 +41,26 @@ def geometry_issues(x, dist_fn, tol):
     return out
 
 
-def rescore(matcher, dist_fn, family, planar=True):
+class Params:
+    """the model parameters as the DOCUMENTATION derives them from the configuration the user passed (dist_noise defaults to
+    obs_noise, the *_ne variants to their emitting counterparts) - not read back from the matcher object, whose own
+    bookkeeping of them is part of what is being checked."""
+    def __init__(self, matcher, cfg):
+        self.lattice_best = matcher.lattice_best
+        self.obs_noise = cfg["obs_noise"]
+        self.obs_noise_ne = cfg.get("obs_noise_ne") if cfg.get("obs_noise_ne") is not None else self.obs_noise
+        self.dist_noise = cfg.get("dist_noise") if cfg.get("dist_noise") is not None else self.obs_noise
+        self.dist_noise_ne = cfg.get("dist_noise_ne") if cfg.get("dist_noise_ne") is not None else self.dist_noise
+        self.avoid_goingback = bool(cfg.get("agb", False))
+        self.ne_length_factor_log = LOG(cfg.get("ne_factor", 0.75))
+        self.beta = cfg.get("beta") if cfg.get("beta") is not None else 1 / 6
+        self.beta_ne = cfg.get("beta_ne") if cfg.get("beta_ne") is not None else self.beta
+
+
+def rescore(matcher, dist_fn, family, planar=True, cfg=None):
     """-> list of (entry, expected dict) along matcher.lattice_best"""
+    if cfg is not None:
+        matcher = Params(matcher, cfg)
     lb = matcher.lattice_best
     out = []
     prev = prev2 = None
@@ -55,6 +73,13 @@ def rescore(matcher, dist_fn, family, planar=True):
         if family == "distance":
             sd = matcher.obs_noise_ne if is_ne else matcher.obs_noise
             lpo = -dist ** 2 / (2 * sd ** 2)
+        elif family == "newsonkrumm":
+            # documented: P(d) = 2 * (1 - cdf_N(0, sigma)(d)), evaluated the documented way (the subtraction underflows to 0,
+            # i.e. log-probability -inf, beyond ~8.3 sigma: that is part of the model as implemented and documented)
+            from scipy.stats import norm
+            sd = matcher.obs_noise_ne if is_ne else matcher.obs_noise
+            v = 2 * (1 - norm(scale=sd).cdf(dist))
+            lpo = LOG(v) if v > 0 else -math.inf
         else:
             sd = matcher.obs_noise_ne if is_ne else matcher.obs_noise
             lpo = -0.5 * (dist / sd) ** 2
@@ -86,6 +111,14 @@ def rescore(matcher, dist_fn, family, planar=True):
                         lpt += LOG(0.5)
                     elif agb and prev2 is not None and prev2.shortkey == s:
                         lpt += LOG(0.5)
+            elif family == "newsonkrumm":
+                # documented: P(dt) = exp(-dt / beta), dt = |distance between observations - distance along the road|
+                d_z = dist_fn(prev.edge_o.pi, x.edge_o.pi)
+                if ps == s:
+                    d_x = dist_fn(prev.edge_m.pi, x.edge_m.pi)
+                else:
+                    d_x = dist_fn(prev.edge_m.pi, prev.edge_m.p2) + dist_fn(prev.edge_m.p2, x.edge_m.pi)
+                lpt = -abs(d_z - d_x) / (matcher.beta_ne if (prev_ne or is_ne) else matcher.beta)
             else:
                 d_z = d_x = 0.0
                 lpt = 0.0
